@@ -61,6 +61,13 @@ SETTINGS = [
     {"max_unique_tokens": 1}, {"max_unique_tokens": 2},
     {"min_occurrences": 2, "excluded_tokens": ["a"], "max_unique_tokens": 1},
     {"max_document_occurrences": 2, "excluded_token_regex": "c", "min_frequency": 0.125},
+    # max_unique_tokens keeps the most frequent tokens AMONG THOSE MEETING EVERY OTHER CONSTRAINT: each other kind of
+    # constraint paired with the cut (a frequent token removed by the other constraint must not use up a slot)
+    {"excluded_token_regex": "a", "max_unique_tokens": 1}, {"excluded_token_regex": "[ab]", "max_unique_tokens": 1},
+    {"excluded_token_regex": "b", "max_unique_tokens": 2}, {"excluded_tokens": ["a"], "max_unique_tokens": 1},
+    {"excluded_tokens": ["b"], "max_unique_tokens": 2}, {"max_occurrences": 2, "max_unique_tokens": 1},
+    {"max_frequency": 0.5, "max_unique_tokens": 1}, {"max_document_occurrences": 1, "max_unique_tokens": 1},
+    {"max_document_frequency": 0.5, "max_unique_tokens": 2}, {"min_occurrences": 2, "max_unique_tokens": 1},
 ]
 
 
